@@ -821,3 +821,91 @@ Section EqExact.
     rewrite Hgoal. destruct value; try discriminate; destruct (own_value d key); reflexivity.
   Qed.
 End EqExact.
+
+(* ================= implicit equality without the probe side condition ================= *)
+From SV Require Import PyEqEquiv.
+
+Section EqExactFull.
+  Variable regex_search : str -> str -> bool.
+  Variable isclose : (Z * Z) -> (Z * Z) -> (Z * Z) -> (Z * Z) -> bool.
+  Notation find_expression := (Query.find_expression regex_search isclose).
+  Notation match_expression := (Query.match_expression regex_search isclose).
+
+  Variable c : corpus.
+  Hypothesis Hnd : NoDup (map fst c).
+  Hypothesis Hslots : forall key, SlotInj (map snd (kvals c key)).
+  Hypothesis Hrefl : forall key v, In v (map snd (kvals c key)) -> slot_eq v v = true.
+  (* indexed values are mapping-free below the top level and hold normalised floats *)
+  Hypothesis Hok : forall key v, In v (map snd (kvals c key)) -> okv v = true.
+
+  Lemma index_get_exact_euclid : forall key p i d,
+    okv p = true -> In (i, d) c ->
+    mem i (index_get (build_index c key) p) =
+      match own_value d key with Some v => slot_eq (as_key v) p | None => false end.
+  Proof.
+    intros key p i d Hp Hin.
+    destruct (build_index_inv c key (Hslots key)) as [I1 [I2 I3]].
+    assert (Hkeys : NoDup (map fst (build_index c key))).
+    { rewrite build_index_kvals. apply fold_index_keys_nodup; [constructor|]. intros v Hv. eapply Hrefl; eauto. }
+    destruct (own_value d key) as [v|] eqn:Ev.
+    - destruct (entry_of_job c Hslots key i d v Hin Ev) as [ids [Hk Hi]].
+      destruct (slot_eq (as_key v) p) eqn:Es.
+      + destruct (index_get_cases (build_index c key) p) as [[_ H2]|[k0 [H1 H2]]].
+        * rewrite (H2 _ _ Hk) in Es. discriminate.
+        * assert (Hk0 : In k0 (map snd (kvals c key))) by (eapply I3; eauto).
+          assert (Hv : In (as_key v) (map snd (kvals c key))) by (eapply I3; eauto).
+          assert (k0 = as_key v).
+          { apply (Hslots key); auto. apply (slot_eq_euclid k0 (as_key v) p); eauto. }
+          subst k0. rewrite (nodup_keys_unique _ _ _ _ Hkeys H1 Hk). apply mem_In. exact Hi.
+      + apply not_true_is_false. intro Hm. apply mem_In in Hm.
+        destruct (index_get_cases (build_index c key) p) as [[H1 _]|[k0 [H1 H2]]].
+        * rewrite H1 in Hm. inversion Hm.
+        * destruct (entry_key_of_job c Hnd Hslots key i d k0 _ Hin H1 Hm) as [v' [Hv' ->]].
+          rewrite Ev in Hv'. inversion Hv'; subst. congruence.
+    - apply not_true_is_false. intro Hm. apply mem_In in Hm.
+      destruct (index_get_cases (build_index c key) p) as [[H1 _]|[k0 [H1 H2]]].
+      + rewrite H1 in Hm. inversion Hm.
+      + destruct (entry_key_of_job c Hnd Hslots key i d k0 _ Hin H1 Hm) as [v' [Hv' _]]. congruence.
+  Qed.
+
+  Lemma probes_ok : forall value p, flatv value = true -> probe_normal value = true ->
+    In p (probes value) -> okv p = true.
+  Proof.
+    intros value p Hf Hn Hp. unfold probes in Hp. destruct (int_value value) as [n|].
+    - destruct Hp as [<-|[<-|[]]]; reflexivity.
+    - destruct Hp as [<-|[]]. unfold okv. rewrite Hf. simpl.
+      destruct value as [| | |[m e]| | |]; auto.
+  Qed.
+
+  (* implicit equality {key: value}, incl. the int/float dual lookup: exact under NoSlotMerge for every
+     mapping-free value with normalised floats — no condition relating the value to the corpus *)
+  Theorem find_expression_exact_eq_full : forall key value R,
+    contains_char dollar key = false ->
+    flatv value = true -> probe_normal value = true ->
+    find_expression c key value = Ok R ->
+    forall i d, In (i, d) c -> match_expression d key value = Ok (mem i R).
+  Proof.
+    intros key value R Hd Hfl Hpn H i d Hin.
+    unfold Query.find_expression in H. unfold Query.match_expression. rewrite Hd in *.
+    assert (Eo : is_obj value = false) by (destruct value; try reflexivity; discriminate).
+    assert (Hgoal : mem i R = match own_value d key with Some v => key_eq (as_key v) value | None => false end).
+    { assert (Hprobe : forall v, key_eq (as_key v) value = existsb (slot_eq (as_key v)) (probes value)).
+      { intro v. apply probe_pointwise; auto. }
+      pose proof (probes_ok value) as Hpok.
+      unfold probes in *. destruct (int_value value) as [n|] eqn:En.
+      - assert (HR : R = union (index_get (build_index c key) (JInt n)) (index_get (build_index c key) (JFloat (n, 0%Z)))).
+        { destruct value; try discriminate; inversion H; reflexivity. }
+        rewrite HR, mem_union.
+        rewrite (index_get_exact_euclid key (JInt n) i d) by (auto; apply Hpok; simpl; auto).
+        rewrite (index_get_exact_euclid key (JFloat (n, 0%Z)) i d) by (auto; apply Hpok; simpl; auto).
+        destruct (own_value d key) as [v|]; [|reflexivity].
+        rewrite Hprobe. simpl. rewrite orb_false_r. reflexivity.
+      - assert (HR : R = index_get (build_index c key) value).
+        { destruct value; try discriminate; inversion H; reflexivity. }
+        rewrite HR.
+        rewrite (index_get_exact_euclid key value i d) by (auto; apply Hpok; simpl; auto).
+        destruct (own_value d key) as [v|]; [|reflexivity].
+        rewrite Hprobe. simpl. rewrite orb_false_r. reflexivity. }
+    rewrite Hgoal. destruct value; try discriminate; destruct (own_value d key); reflexivity.
+  Qed.
+End EqExactFull.
